@@ -222,9 +222,14 @@ func (c *Controller) scaleNodeGroup(nodegroup string, nodeGroup *NodeGroupState)
 	}
 
 	// store a cached version of node capacity
-	if len(allNodes) > 0 {
-		nodeGroup.cpuCapacity = *allNodes[0].Status.Allocatable.Cpu()
-		nodeGroup.memCapacity = *allNodes[0].Status.Allocatable.Memory()
+	// cordoned nodes are excluded from every other calculation, so never take the node size from one
+	for _, node := range allNodes {
+		if node.Spec.Unschedulable {
+			continue
+		}
+		nodeGroup.cpuCapacity = *node.Status.Allocatable.Cpu()
+		nodeGroup.memCapacity = *node.Status.Allocatable.Memory()
+		break
 	}
 
 	// Filter into untainted and tainted nodes
